@@ -63,6 +63,8 @@ TNext ==
     \/ /\ Is("probe_syn") /\ ProbeSyn(E.from, E.fam, E.sa, E.sp, E.da, E.dp)
        /\ LET r == ImplSyn(E.from, E.fam, E.sa, E.sp, E.da, E.dp)
           IN r.reply = E.reply /\ r.obs = SetOf(E.obs)
+    \/ /\ Is("stall") /\ Stall(E.from, E.fam, E.sa, E.sp, E.da, E.dp)
+       /\ last'.reply = E.reply
     \/ /\ Is("data") /\ ProbeData(E.c)
        /\ ImplData(E.c) = SetOf(E.obs)
 
